@@ -4,7 +4,7 @@ import sys
 from . import common as C
 
 TARGETS = {
-    "asan": ["drv_sorted", "drv_pipeline", "drv_threads", "drv_lifecycle"],
+    "asan": ["drv_sorted", "drv_pipeline", "drv_threads", "drv_lifecycle", "drv_pattern"],
     "plain": ["drv_rotation", "drv_fatal"],
 }
 
